@@ -32,69 +32,65 @@ func isLevelDBStoreCall(in ssa.Instruction) (string, bool) {
 
 // normSeq renders a function as a sequence of operation descriptors, ignoring local names and the
 // receiver's concrete type (siblings LDBBucket / LDBReadBucket must agree).
+// normSeq: what a function does, as a sorted set: the calls it makes (constant arguments kept), the
+// constants it compares with, the fields it touches and the package-level values (sentinel errors,
+// separators) it uses — over the function, its closures and helpers the reference tree does not have.
+// Two sibling implementations must agree on this set; the order of operations, the shape of control
+// flow (defer vs explicit release, named vs explicit results) and temporaries are not compared, so a
+// behaviour-preserving restyling of one sibling does not make them "disagree".
 func normSeq(fn *ssa.Function) []string {
-	var out []string
+	set := map[string]bool{}
 	norm := func(s string) string {
 		s = strings.ReplaceAll(s, "LDBReadBucket", "B")
 		s = strings.ReplaceAll(s, "LDBBucket", "B")
 		return s
 	}
-	for _, b := range fn.Blocks {
-		for _, in := range b.Instrs {
-			switch x := in.(type) {
-			case *ssa.DebugRef:
-				continue
-			case ssa.CallInstruction:
-				id := calleeID(in)
-				args := []string{}
-				for _, a := range x.Common().Args {
-					if k, ok := a.(*ssa.Const); ok {
-						args = append(args, k.String())
-					} else {
-						args = append(args, "_")
+	for _, g := range bodyFns(fn, nil) {
+		for _, b := range g.Blocks {
+			for _, in := range b.Instrs {
+				switch x := in.(type) {
+				case *ssa.DebugRef:
+					continue
+				case ssa.CallInstruction:
+					id := calleeID(in)
+					if id == "" {
+						continue // call of a local closure
 					}
-				}
-				out = append(out, norm("call "+id+"("+strings.Join(args, ",")+")"))
-			case *ssa.BinOp:
-				s := "binop " + x.Op.String()
-				if k, ok := x.Y.(*ssa.Const); ok {
-					s += " " + k.String()
-				}
-				out = append(out, s)
-			case *ssa.FieldAddr:
-				_, st := namedStructOrAnon(x.X.Type())
-				out = append(out, "field "+st.Field(x.Field).Name())
-			case *ssa.If:
-				out = append(out, "if")
-			case *ssa.Return:
-				r := "return"
-				for _, v := range x.Results {
-					if k, ok := strip(v).(*ssa.Const); ok {
-						r += " " + k.String()
-					} else if u, ok := strip(v).(*ssa.UnOp); ok {
-						if g, ok := u.X.(*ssa.Global); ok {
-							r += " " + g.Name()
+					if h := x.Common().StaticCallee(); h != nil && (gNewFuncs[h] || h.Parent() != nil) {
+						continue // folded into the body
+					}
+					args := []string{}
+					for _, a := range x.Common().Args {
+						if k, ok := a.(*ssa.Const); ok {
+							args = append(args, k.String())
 						} else {
-							r += " _"
+							args = append(args, "_")
 						}
-					} else {
-						r += " _"
+					}
+					set[norm("call "+id+"("+strings.Join(args, ",")+")")] = true
+				case *ssa.BinOp:
+					if k, ok := x.Y.(*ssa.Const); ok {
+						switch x.Op {
+						case token.EQL, token.NEQ, token.LSS, token.LEQ, token.GTR, token.GEQ:
+							set["compare "+x.Op.String()+" "+k.String()] = true
+						}
+					}
+				case *ssa.FieldAddr:
+					_, st := namedStructOrAnon(x.X.Type())
+					set["field "+st.Field(x.Field).Name()] = true
+				case *ssa.UnOp:
+					if gl, ok := x.X.(*ssa.Global); ok {
+						set["global "+gl.Name()] = true
 					}
 				}
-				out = append(out, r)
-			case *ssa.Slice:
-				out = append(out, "slice")
-			case *ssa.MakeSlice:
-				out = append(out, "makeslice")
-			case *ssa.Store:
-				out = append(out, "store")
-			case *ssa.Jump, *ssa.Phi, *ssa.UnOp, *ssa.Convert, *ssa.ChangeType, *ssa.MakeInterface, *ssa.Alloc, *ssa.IndexAddr, *ssa.Extract:
-				// representation detail
-			default:
-				out = append(out, fmt.Sprintf("%T", in))
 			}
 		}
 	}
+	var out []string
+	for k := range set {
+		out = append(out, k)
+	}
+	sort.Strings(out)
 	return out
 }
 
@@ -483,18 +479,32 @@ func checkC19(c *Ctx) Meta {
 			continue
 		}
 		key := recv + ".innerKey:path+separator+key"
-		copies := callsIn(f, "builtin.copy")
+		copies := callsInBody(f, "builtin.copy") // also in a helper the reference tree does not have
 		hasPath, hasSep, hasKey := false, false, false
+		// the position after the path: the pathLen field, or len() of the path itself
+		atPathLen := func(dst *slice) bool {
+			if dst.hasField(pkgLDB+"."+recv, "pathLen") {
+				return true
+			}
+			for v := range dst.vals {
+				if cl, ok := v.(*ssa.Call); ok {
+					if b, isB := cl.Call.Value.(*ssa.Builtin); isB && b.Name() == "len" && len(cl.Call.Args) == 1 && backSlice(cl.Call.Args[0]).hasField(pkgLDB+"."+recv, "path") {
+						return true
+					}
+				}
+			}
+			return false
+		}
 		for _, cp := range copies {
 			src := backSlice(cp.Call.Args[1])
 			dst := backSlice(cp.Call.Args[0])
 			if src.hasField(pkgLDB+"."+recv, "path") {
 				hasPath = true
 			}
-			if src.hasConstVal(sep) && dst.hasField(pkgLDB+"."+recv, "pathLen") {
+			if src.hasConstVal(sep) && atPathLen(dst) {
 				hasSep = true
 			}
-			if src.hasParam(f, "key") && dst.hasField(pkgLDB+"."+recv, "pathLen") {
+			if src.hasParam(f, "key") && atPathLen(dst) {
 				hasKey = true
 			}
 		}
